@@ -1,5 +1,6 @@
 import NurbsVerif.Lemmas.Config
 import NurbsVerif.Lemmas.SpanBin
+import NurbsVerif.Lemmas.AssembleAffine
 
 /-!
 # C17  Results do not depend on configuration choices
@@ -36,6 +37,55 @@ theorem basis_affine_knots (U : ℕ → K) (κ : ℕ) (u a b : K) (ha : a ≠ 0)
 theorem curve_point_affine_knots (p : ℕ) (U : ℕ → K) (P : List (List K)) (u a b : K) (ha : 0 < a) :
     curvePoint p (fun i => a * U i + b) P (a * u + b) = curvePoint p U P u :=
   curvePoint_affine_knots p U P u a b ha
+
+/-- knot range, surfaces: `evaluate_single` (span search + A3.5) with knots `a₁•Uu + b₁`, `a₂•Uv + b₂`
+    at `(a₁·u + b₁, a₂·v + b₂)` equals evaluation with `Uu`, `Uv` at `(u, v)` – independently per
+    direction, any increasing affine maps, every parameter. -/
+theorem surface_point_affine_knots (pu pv : ℕ) (Uu Uv : ℕ → K) (su sv : ℕ) (P : List (List K)) (u v : K)
+    (a1 b1 a2 b2 : K) (h1 : 0 < a1) (h2 : 0 < a2) :
+    surfacePoint pu pv (fun i => a1 * Uu i + b1) (fun i => a2 * Uv i + b2) su sv P (a1 * u + b1) (a2 * v + b2)
+      = surfacePoint pu pv Uu Uv su sv P u v :=
+  surfacePoint_affine_knots pu pv Uu Uv su sv P u v a1 b1 a2 b2 h1 h2
+
+/-- knot range, volumes: the same for the three directions of `volumePoint`. -/
+theorem volume_point_affine_knots (pu pv pw : ℕ) (Uu Uv Uw : ℕ → K) (su sv sw : ℕ) (P : List (List K)) (u v w : K)
+    (a1 b1 a2 b2 a3 b3 : K) (h1 : 0 < a1) (h2 : 0 < a2) (h3 : 0 < a3) :
+    volumePoint pu pv pw (fun i => a1 * Uu i + b1) (fun i => a2 * Uv i + b2) (fun i => a3 * Uw i + b3) su sv sw P
+        (a1 * u + b1) (a2 * v + b2) (a3 * w + b3)
+      = volumePoint pu pv pw Uu Uv Uw su sv sw P u v w :=
+  volumePoint_affine_knots pu pv pw Uu Uv Uw su sv sw P u v w a1 b1 a2 b2 a3 b3 h1 h2 h3
+
+/-- normalised vs original knot vector, curves: evaluating with `knotvector.normalize(U)` (model
+    `knotNormalize`) at the normalised parameter `(u - U_first)/(U_last - U_first)` equals evaluating
+    with `U` at `u` (knot range of positive length; every parameter). -/
+theorem curve_point_normalized_knots (p : ℕ) (Ul : List K) (P : List (List K)) (u : K)
+    (hne : Ul ≠ []) (hr : Ul.headD 0 < Ul.getLastD 0) :
+    curvePoint p (fnOf (knotNormalize Ul)) P ((u - Ul.headD 0) / (Ul.getLastD 0 - Ul.headD 0))
+      = curvePoint p (fnOf Ul) P u :=
+  curvePoint_normalized p Ul P u hne hr
+
+/-- normalised vs original knot vectors, surfaces (each direction normalised on its own range). -/
+theorem surface_point_normalized_knots (pu pv : ℕ) (Uul Uvl : List K) (su sv : ℕ) (P : List (List K)) (u v : K)
+    (hneu : Uul ≠ []) (hru : Uul.headD 0 < Uul.getLastD 0) (hnev : Uvl ≠ []) (hrv : Uvl.headD 0 < Uvl.getLastD 0) :
+    surfacePoint pu pv (fnOf (knotNormalize Uul)) (fnOf (knotNormalize Uvl)) su sv P
+        ((u - Uul.headD 0) / (Uul.getLastD 0 - Uul.headD 0)) ((v - Uvl.headD 0) / (Uvl.getLastD 0 - Uvl.headD 0))
+      = surfacePoint pu pv (fnOf Uul) (fnOf Uvl) su sv P u v :=
+  surfacePoint_normalized pu pv Uul Uvl su sv P u v hneu hru hnev hrv
+
+/-- normalised vs original knot vectors, volumes. -/
+theorem volume_point_normalized_knots (pu pv pw : ℕ) (Uul Uvl Uwl : List K) (su sv sw : ℕ) (P : List (List K)) (u v w : K)
+    (hneu : Uul ≠ []) (hru : Uul.headD 0 < Uul.getLastD 0) (hnev : Uvl ≠ []) (hrv : Uvl.headD 0 < Uvl.getLastD 0)
+    (hnew : Uwl ≠ []) (hrw : Uwl.headD 0 < Uwl.getLastD 0) :
+    volumePoint pu pv pw (fnOf (knotNormalize Uul)) (fnOf (knotNormalize Uvl)) (fnOf (knotNormalize Uwl)) su sv sw P
+        ((u - Uul.headD 0) / (Uul.getLastD 0 - Uul.headD 0)) ((v - Uvl.headD 0) / (Uvl.getLastD 0 - Uvl.headD 0))
+        ((w - Uwl.headD 0) / (Uwl.getLastD 0 - Uwl.headD 0))
+      = volumePoint pu pv pw (fnOf Uul) (fnOf Uvl) (fnOf Uwl) su sv sw P u v w :=
+  volumePoint_normalized pu pv pw Uul Uvl Uwl su sv sw P u v w hneu hru hnev hrv hnew hrw
+
+/-- non-vacuity: knots on the range `[1, 5]`, parameter 4 ↦ 3/4 -/
+example : curvePoint 2 (fnOf (knotNormalize ([1,1,1,3,5,5,5] : List ℚ))) [[0,0],[1,2],[3,1],[4,4]] ((4 - 1) / (5 - 1))
+    = curvePoint 2 (fnOf ([1,1,1,3,5,5,5] : List ℚ)) [[0,0],[1,2],[3,1],[4,4]] 4 :=
+  curve_point_normalized_knots 2 _ _ 4 (by simp) (by decide +kernel)
 
 /-- memoisation: starting from an empty cache of any capacity, the answers to any sequence of
     calls are exactly the function values -/
